@@ -227,6 +227,24 @@ def x0_dest_case(rng, mode, hazard=True, trace=30, run=300, dspec="-", ispec="-"
     return Case(suite, lines, None, {"mode": mode, "hazard": hazard, "prog": prog, "regs": regs, "pokes": pokes, "d": dspec, "i": ispec})
 
 
+def fault_schedule_programs():
+    """Every kind of run-time fault (load / store at an illegal or crossing address, invalid ecall code) placed in every
+    pipeline situation: alone, behind a producer it depends on or not, in front of a consumer of its result or of an older
+    result at distance 1 and 2 (decode stalled while it is in EX / MEM), behind and in front of an ecall (drain), behind a
+    taken branch (must NOT fault), as last instruction. Deterministic; yields (program, registers)."""
+    faulters = [tok("lw", 1, 0, 0, 0), tok("sw", 0, 0, 0, 8), tok("lbu", 1, 6, 0, 0), tok("sh", 0, 6, 5, 2), tok("lw", 1, 2, 0, 1), tok("ecall")]
+    nop = tok("addi", 0, 0, 0, 0)
+    for f in faulters:
+        regs = {2: DATA, 6: 0xFFFFFFF0, 5: 7, 17: 5 if f.startswith("ecall") else 10, 3: 1}
+        for before in ([], [tok("addi", 3, 3, 0, 1)], [tok("addi", 6, 6, 0, 4)], [tok("addi", 3, 3, 0, 1), nop], [tok("addi", 17, 0, 0, 1), tok("ecall")]):
+            for after in ([], [tok("addi", 4, 1, 0, 1)], [tok("addi", 4, 3, 0, 1)], [nop, tok("addi", 4, 3, 0, 1)], [tok("add", 4, 1, 3)],
+                          [tok("ecall")], [tok("beq", 0, 0, 0, 8), nop]):
+                yield before + [f] + after, regs
+        # squashed behind a taken branch / jump: no fault may be reported
+        yield [tok("beq", 0, 0, 0, 8), f, tok("addi", 4, 0, 0, 1)], regs
+        yield [tok("jal", 0, 0, 0, 8, 8), f, tok("addi", 4, 0, 0, 1)], regs
+
+
 def penalty_cache_spec(rng, kind):
     """a cache with a miss penalty > 0 (small geometries, so that evictions happen)"""
     pol = rng.choice(["lru", "plru"])
